@@ -165,6 +165,8 @@ def run(m, tier):
                                                ("include search and reading", "which file an INCLUDE line resolves to is decided from the file system as it is now, not as it was at an earlier parse"), 70))
     results.append(retag(C08.r4_opener_index(m), "C13.R6", "the block engine addresses the opening statement by start_idx: unresolved "
                          "Include_Stmt nodes collected before it come first in `content` (shared with C08.R4)"))
+    from rules import reader_interp
+    results.append(reader_interp.include_rule(m, "C13.R10", tier))
     expl = ("Decides structural clauses of C13: the include search visits self.include_dirs in order and stops at the first existing "
             "file; an unresolved INCLUDE line is returned as an ordinary item and Include_Stmt is tried at every position (per call "
             "site of the block engine and around program units, in both directive modes); the nested reader gets the path, the "
